@@ -50,7 +50,8 @@ def expected_default_set(d, numofq, onlypositive):
 
 def reference(frames_pos, types, L, nvec):
     """returns dict col -> per-vector unrounded values, and |q| per vector"""
-    types = np.asarray(types)
+    types_f = [np.asarray(t) for t in types] if isinstance(types, list) else [np.asarray(types)] * len(frames_pos)
+    types = types_f[0]
     N = len(types)
     species = np.unique(types)
     K = len(species)
@@ -62,7 +63,7 @@ def reference(frames_pos, types, L, nvec):
         pairs = [(a, a) for a in range(1, K + 1)] + [(a, b) for a in range(1, K + 1) for b in range(a + 1, K + 1)]
         for a, b in pairs:
             cols[f"Sq{a}{b}"] = np.zeros(len(q))
-    for pos in frames_pos:
+    for pos, types in zip(frames_pos, types_f):
         ph = np.exp(-1j * (pos @ q.T))            # (N, M)
         rho = ph.sum(axis=0)
         cols["Sq"] += (rho * rho.conj()).real / N
@@ -80,7 +81,8 @@ def one_case(ctx, rng, wd, K=None, mode=None):
     K = K or int(rng.choice([1, 2, 2, 3, 3, 4, 4, 5, 5, 6]))
     frames = int(rng.choice([1, 1, 2, 4]))
     d = int(rng.choice([2, 3]))
-    snaps, inf, cell = gc.static_system(rng, d=d, K=K, cellkind="ortho", frames=frames, nmin=max(2, K), nmax=60)
+    retype = bool(frames > 1 and rng.random() < 0.35)
+    snaps, inf, cell = gc.static_system(rng, d=d, K=K, cellkind="ortho", frames=frames, nmin=max(2, K), nmax=60, retype=retype)
     L = np.diag(cell["H"]).copy()
     types = snaps.snapshots[0].particle_type
     Kreal = len(np.unique(types))
@@ -115,7 +117,7 @@ def one_case(ctx, rng, wd, K=None, mode=None):
     save = rng.random() < 0.35
     outfile = os.path.join(wd, "sq_out.csv") if (save or rng.random() < 0.2) else None
     info = lambda: {"d": d, "N": N, "K": Kreal, "L": L, "frames": frames, "mode": mode, "onlypositive": onlypos,  # noqa: E731
-                    "kwargs": {k: v for k, v in kwargs.items()}, "types": types,
+                    "kwargs": {k: v for k, v in kwargs.items()}, "types": [s.particle_type for s in snaps.snapshots], "retyped_between_frames": retype,
                     "positions": [s.positions for s in snaps.snapshots] if N <= 30 else "omitted(N>30)"}
     key = f"sq/K{min(Kreal, 6)}"
     ok, res = ctx.call(key, lambda: sq(snaps, saveqvectors=save, outputfile=outfile, **kwargs).getresults(), data=info)
@@ -128,7 +130,7 @@ def one_case(ctx, rng, wd, K=None, mode=None):
     if res is None:
         ctx.violation(key + "/none", "getresults returned None", info())
         return
-    ref, qn = reference([s.positions for s in snaps.snapshots], types, L, nvec)
+    ref, qn = reference([s.positions for s in snaps.snapshots], [s.particle_type for s in snaps.snapshots], L, nvec)
     # --- direct check of the wave-vector set / per-vector values through the _qvectors.csv
     if save:
         import pandas as pd
